@@ -183,10 +183,11 @@ func (p *FSM) Open(_ <-chan struct{}) (uint64, error) {
 		return 0, err
 	}
 	p.metrics.applied.Store(idx)
-	p.appliedFunc(idx)
 	lx, _ := readLocalIndex(db, sysLeaderIndex)
 	if lx != 0 {
 		p.appliedFunc(lx)
+	} else {
+		p.appliedFunc(idx)
 	}
 	return idx, nil
 }
